@@ -462,15 +462,26 @@ def lookup_ops(rng, t, pre, tier):
     return ops
 
 
+# bytes a short-writing sink accepts per `write` call (`grp_write_chunk`): GroupResource::write must deliver the
+# same file into every sink that makes progress (it uses write_all since 1c97be5)
+CHUNKS = [1, 3, 5, 16, 4096]
+_chunk_turn = [0]
+
+
 def helper_ops(pre, groups):
     ops = ["%s manifest" % pre, "%s version" % pre, "%s icons" % pre, "%s cursors" % pre]
     gp = pre.split(" ")
     for kind, gname, ico in groups:
         w = (" want=%s" % hx(ico)) if ico is not None else ""
+        cur = " cursor" if kind == 2 else ""
+        _chunk_turn[0] += 1
+        ns = [CHUNKS[_chunk_turn[0] % 5], CHUNKS[(_chunk_turn[0] + 2) % 5]]
         if gp[0] == "res":
-            ops.append("grp_write %s %s%s%s" % (gp[1], name_arg(gname), " cursor" if kind == 2 else "", w))
+            ops.append("grp_write %s %s%s%s" % (gp[1], name_arg(gname), cur, w))
+            ops += ["grp_write_chunk %s %s%s %d%s" % (gp[1], name_arg(gname), cur, n, w) for n in ns]
         else:
-            ops.append("%s grp_write %s%s%s" % (pre, name_arg(gname), " cursor" if kind == 2 else "", w))
+            ops.append("%s grp_write %s%s%s" % (pre, name_arg(gname), cur, w))
+            ops += ["%s grp_write_chunk %s%s %d%s" % (pre, name_arg(gname), cur, n, w) for n in ns]
     return ops
 
 
@@ -537,14 +548,21 @@ def gen_wellformed(rng, tier):
             cases.append(mk("res_raw 0x%x %s" % (dir_va, hx(sec))))
         else:
             cases += image_cases(rng, sec, dir_va if dir_va >= 0x2000 else 0x2000, mk) if dir_va >= 0x2000 else [mk("res_raw 0x%x %s" % (dir_va, hx(sec)))]
-    # deep chains around the depth limit of fsck (32 nested directories pass, 33 do not)
-    for depth in (30, 31, 32, 33, 34):
-        t = RData(b"leaf", 0)
-        for d in range(depth):
-            t = RDir([(d + 1, t)], 0)
-        sec = encode_canonical(t, 0)
-        pre = "res_raw 0 %s" % hx(sec)
-        cases.append(std_ops(pre, "ok" if depth <= 32 else "fail"))
+    # deep chains around the depth limit of fsck.  All of them are well-formed trees (every reference in bounds, nothing
+    # contains itself), so by the statement fsck must succeed: `want=ok`.  The implementation gives up beyond 32 nested
+    # directories (FSCK_MAX_DEPTH) — a known finding (Thm/C12.lean: C12_fsck_rejects_deep), `limit=depth` in the spec part.
+    for depth in (30, 31, 32, 33, 34, 40):
+        for width in (1, 2):
+            t = RData(b"leaf", 0)
+            for d in range(depth):
+                t = RDir([(d + 1, t)] + [(1000 + w, RData(bytes([w, d & 0xFF]), 0)) for w in range(width - 1)], 0)
+            tt = tree_text(t)
+            if width == 1:
+                sec = encode_canonical(t, 0)
+                cases.append(std_ops("res_raw 0 %s" % hx(sec), "ok", tt))
+            else:
+                sec = encode_classic(rng, t, 0x2000)[0]
+                cases += image_cases(rng, sec, 0x2000, lambda pre, tt=tt: std_ops(pre, "ok", tt))
     # the empty root, a root holding only data entries
     for t in (RDir([], 0), RDir([(1, RData(b"x", 0))], 0), RDir([(utf16("A"), RData(b"", 7))], 1)):
         sec = encode_canonical(t, 0x1000)
@@ -778,6 +796,101 @@ def gen_offpath(rng, tier):
     return cases
 
 
+def encode_shared(rng, t, dir_va):
+    """the classic layout for a tree in which the SAME python object may occur under several entries: a shared directory
+    or data entry is stored once and referenced from every place it occurs (a DAG in the section, `tree_text(t)` is its
+    unfolding — what a traversal reports)"""
+    dirs, seen, order = [], set(), [t]
+    while order:
+        d = order.pop(0)
+        if id(d) in seen:
+            continue
+        seen.add(id(d)); dirs.append(d)
+        for _, ch in d.entries:
+            if isinstance(ch, RDir):
+                order.append(ch)
+    off, doff = 0, {}
+    for d in dirs:
+        doff[id(d)] = off
+        off += 16 + 8 * len(d.entries)
+    soff, strs = {}, b""
+    for d in dirs:
+        for nm, _ in d.entries:
+            if not isinstance(nm, int) and nm not in soff:
+                soff[nm] = off + len(strs)
+                strs += struct.pack("<H", len(nm) & 0xFFFF) + b"".join(struct.pack("<H", w) for w in nm)
+    strs += bytes(pad4(len(strs)) - len(strs))
+    off += len(strs)
+    datas, dseen = [], set()
+    for d in dirs:
+        for _, ch in d.entries:
+            if isinstance(ch, RData) and id(ch) not in dseen:
+                dseen.add(id(ch)); datas.append(ch)
+    eoff = {id(e): off + 16 * i for i, e in enumerate(datas)}
+    off += 16 * len(datas)
+    blobs, boff = b"", {}
+    for e in datas:
+        padn = (-(off + len(blobs))) % 4
+        blobs += bytes(padn)
+        boff[id(e)] = off + len(blobs)
+        blobs += e.content
+    out = b""
+    for d in dirs:
+        n, nn = len(d.entries), d.named()
+        out += struct.pack("<IIHHHH", 0, rng.randrange(1 << 32), 0, 0, nn & 0xFFFF, (n - nn) & 0xFFFF)
+        for nm, ch in d.entries:
+            nf = nm if isinstance(nm, int) else (HI | soff[nm])
+            of = (HI | doff[id(ch)]) if isinstance(ch, RDir) else eoff[id(ch)]
+            out += struct.pack("<II", nf & U32, of & U32)
+    out += strs
+    for e in datas:
+        out += struct.pack("<IIII", (dir_va + boff[id(e)]) & U32, len(e.content), e.cp & U32, 0)
+    return out + blobs
+
+
+def count_dirs(t):
+    return 0 if isinstance(t, RData) else 1 + sum(count_dirs(ch) for _, ch in t.entries)
+
+
+def shared_cases(rng, tier):
+    """Well-formed sections whose stored graph is a DAG: several entries designate one child (a directory with data
+    below it, a language directory shared by several names, a shared data entry).  Nothing is out of bounds, nothing
+    contains itself, a traversal reports the unfolded tree `tree=`: by the statement fsck must succeed (`want=ok`).  The
+    implementation counts directory VISITS against len / 16 and answers Insanity beyond that (`limit=budget`)."""
+    cases = []
+    n = 10 if tier == "quick" else 200
+    for _ in range(n):
+        leaf = rand_data(rng)
+        lang = RDir([(rng.choice([1033, 0, 1031]), leaf)], 0)                          # shared language directory
+        fan = rng.choice([2, 3, 4, 6, 9, 14])
+        shape = rng.choice(["names", "types", "two_levels", "data_only"])
+        if shape == "names":
+            t = RDir([(rng.choice([3, 10, 24]), RDir([(i + 1, lang) for i in range(fan)], 0))], 0)
+        elif shape == "types":
+            name_dir = RDir([(1, lang), (utf16("MAIN"), lang)][::-1], 1)
+            t = RDir([(i + 1, name_dir) for i in range(fan)], 0)
+        elif shape == "two_levels":
+            mid = RDir([(i + 1, lang) for i in range(rng.choice([2, 3]))], 0)
+            t = RDir([(i + 1, mid) for i in range(fan)], 0)
+        else:
+            t = RDir([(10, RDir([(i + 1, RDir([(1033, leaf)], 0)) for i in range(fan)], 0))], 0)    # only the data entry is shared
+        dir_va = rng.choice([0, 0x2000, 0x3000])
+        sec = encode_shared(rng, t, dir_va)
+        sec += bytes(rng.choice([0, 0, 16, 64, 16 * fan * 3]))
+        tt = tree_text(t)
+
+        def mk(pre, t=t, tt=tt):
+            ops = std_ops(pre, "ok", tt)
+            lo = lookup_ops(rng, t, pre, tier)
+            rng.shuffle(lo)
+            return ops + [o + " tree=" + tt for o in lo[:12]]
+        if rng.random() < 0.6 or dir_va < 0x2000:
+            cases.append(mk("res_raw 0x%x %s" % (dir_va, hx(sec))))
+        else:
+            cases += image_cases(rng, sec, dir_va, mk)
+    return cases
+
+
 def gen_small(rng, tier):
     """tiny and degenerate sections, directory placement in the image"""
     cases = []
@@ -796,15 +909,30 @@ def gen_small(rng, tier):
     sec = struct.pack("<IIHHHH", 0, 0, 0, 0, 0, 1) + struct.pack("<II", 1, HI | 24) + struct.pack("<IIHHHH", 0, 0, 0, 0, 0, 2) + struct.pack("<II", 2, HI | 0) + struct.pack("<II", 3, HI | 24)
     pre = "res_raw 0 %s" % hx(sec + bytes(64))
     cases.append(std_ops(pre, "fail") + ["%s find %s" % (pre, hx(b"/#1/#2/#1/#3"))])
-    # k entries sharing one empty sub-directory: accepted iff the unfolded count k + 1 fits len / 16
+    # k entries sharing one empty sub-directory: every reference is in bounds and nothing contains itself, so the section
+    # is well formed and by the statement fsck must succeed (`want=ok`, `tree=` the unfolded tree).  The implementation
+    # accepts it iff the unfolded count k + 1 fits the visit budget len / 16 — a known finding beyond that
+    # (Thm/C12.lean: C12_fsck_rejects_shared is k = 3, pad = 0), `limit=budget` in the spec part.
     for k in (1, 2, 3, 5):
         sec = bytearray(struct.pack("<IIHHHH", 0, 0, 0, 0, 0, k))
         for i in range(k):
             sec += struct.pack("<II", i + 1, HI | (16 + 8 * k))
         sec += bytes(16)
+        tt = tree_text(RDir([(i + 1, RDir([], 0)) for i in range(k)], 0))
         for pad in (0, 8, 16, 64):
             pre = "res_raw 0 %s" % hx(bytes(sec) + bytes(pad))
-            cases.append(std_ops(pre, "ok" if k + 1 <= (len(sec) + pad) // 16 else "fail"))
+            cases.append(std_ops(pre, "ok", tt))
+    cases += shared_cases(rng, tier)
+    # `Resources::new` on a slice placed at every 4-aligned residue mod 16.  The constructor is public and takes any
+    # slice, but an address that is not a multiple of 4 is NOT reachable from a constructed PeFile / PeView
+    # (`Pe::resources` checks the alignment) and aborts the checked build inside the accessors: observed, outside the
+    # statements (Thm/C12.lean: C12_unaligned_section_is_ub_partial) — generators issue 4-aligned placements only.
+    t = RDir([(utf16("A"), RData(b"xy", 0)), (1, RDir([(1033, RData(b"z", 0))], 0))], 1)
+    sec = encode_canonical(t, 0)
+    for a16 in (0, 4, 8, 12):
+        for sub in ("dump", "fsck", "find " + hx(b"/#1/#1033")):
+            cases.append(["res_rawat %d 0 %s %s" % (a16, hx(sec), sub)])
+        cases.append(["res_rawat %d 0 %s dump" % (a16, hx(bytes(8)))])
     # random bytes
     nrand = 60 if tier == "quick" else 3000
     for _ in range(nrand):
